@@ -57,9 +57,14 @@ pub fn run_case(case: &Value) -> Value {
     let mut obs = case.clone();
     let text = uncps(&case["text"]);
     let out = guarded(|| {
+        // the double each numeral of the case denotes, by Rust's correctly rounded parser (trusted denotation oracle)
+        let want: Vec<Value> = case["numerals"].as_array().map(|a| a.iter().map(|n| {
+            let s = uncps(n);
+            match s.parse::<f64>() { Ok(f) => json!({"bits":limbs(f.to_bits()),"finite":f.is_finite()}), Err(_) => json!({"bits":[0,0,0,0],"finite":false}) }
+        }).collect()).unwrap_or_default();
         let var = match Variable::from_json(&text) {
             Ok(v) => v,
-            Err(e) => return json!({"parse_err":ascii_cps(&e)}),
+            Err(e) => return json!({"parse_err":ascii_cps(&e),"want":want}),
         };
         let expr = jmespath::compile("@").unwrap();
         let res = match expr.search(var.clone()) {
@@ -87,12 +92,16 @@ pub fn run_case(case: &Value) -> Value {
             && back_ref.as_ref().map(|b| b.to_string() == printed).unwrap_or(false);
         let deser: Option<Variable> = to_value.and_then(|v| serde_json::from_value(v).ok());
         let bridge_deser = deser.map(|b| b.to_string() == printed).unwrap_or(false);
-        // the double each numeral of the case denotes, by Rust's correctly rounded parser (trusted denotation oracle)
-        let want: Vec<Value> = case["numerals"].as_array().map(|a| a.iter().map(|n| {
-            let s = uncps(n);
-            match s.parse::<f64>() { Ok(f) => json!({"bits":limbs(f.to_bits()),"finite":f.is_finite()}), Err(_) => json!({"bits":[0,0,0,0],"finite":false}) }
-        }).collect()).unwrap_or_default();
-        json!({"printed":cps(&printed),"value":to_tagged(&res),"nums":nums,"want":want,
+        // a value nested deeper than the interchange files can carry is not sent (the judge then checks the relations only)
+        fn depth(v: &Variable) -> usize {
+            match v {
+                Variable::Array(a) => 1 + a.iter().map(|x| depth(x)).max().unwrap_or(0),
+                Variable::Object(m) => 1 + m.values().map(|x| depth(x)).max().unwrap_or(0),
+                _ => 0,
+            }
+        }
+        let value = if depth(&res) > 100 { json!({"t":"toodeep"}) } else { to_tagged(&res) };
+        json!({"printed":cps(&printed),"value":value,"nums":nums,"want":want,
                "reparse_equal":reparse_equal,"reprint_same_text":reprint_same_text,"reparse_text_equal":reparse_text_equal,"print_routes_agree":print_routes_agree,
                "bridge_to":bridge_to,"bridge_from":bridge_from,"bridge_deser":bridge_deser})
     });
